@@ -179,6 +179,78 @@ def check_table(table, cycles, steps, viol, counters, sets, samples):
         mc.close()
 
 
+def distribution(mc):
+    def run(ch):
+        install(mc, ChoiceRNG(ch))
+        return tuple(str(n) for n in mc.step())
+
+    got, st = {}, Stats()
+    for ch, names in explore(run, stats=st):
+        got[names] = got.get(names, 0.0) + ch.probability
+    return got, st
+
+
+def task_edits(arg):
+    """The table is edited in place between steps (documented: probabilities may change
+    dynamically): the next step must follow the edited table."""
+    counters = {"executions": 0, "transitions": 0, "instances": 0, "nontrivial": 0, "skipped_outside_precondition": 0, "edits": 0}
+    viol, seen = [], {}
+    fields = {"interval": (1, 2, 3), "probability": (0, 1, 3), "minimum_count": (0, 1, 2)}
+    for table, cycles in arg["items"]:
+        table = [tuple(x) for x in table]
+        if sum(m for _, _, m in table) > cycles or not valid(table, cycles, 0):
+            continue
+        mc = make_mc(table, cycles)
+        try:
+            mc.step_count = 0
+            install(mc, ChoiceRNG(Chooser()))
+            list(mc.step())  # one real step under the original table
+            for mi in range(len(table)):
+                for fi, (fname, vals) in enumerate(fields.items()):
+                    for v in vals:
+                        if v == table[mi][fi]:
+                            continue
+                        t2 = list(table)
+                        row = list(t2[mi])
+                        row[fi] = v
+                        t2[mi] = tuple(row)
+                        for step in (1, 6):
+                            if not valid(t2, cycles, step):
+                                continue
+                            counters["edits"] += 1
+                            stor = mc.moves[NAMES[mi]]
+                            old = getattr(stor, fname)
+                            setattr(stor, fname, float(v) if fname == "probability" else v)
+                            mc.step_count = step
+                            try:
+                                got, st = distribution(mc)
+                                err = None
+                            except Exception as e:  # noqa: BLE001
+                                from qv.core import HarnessError
+
+                                if isinstance(e, HarnessError):
+                                    raise
+                                got, st, err = {}, Stats(), f"{type(e).__name__}: {e}"
+                            setattr(stor, fname, old)
+                            counters["executions"] += st.executions
+                            counters["transitions"] += st.points
+                            counters["instances"] += 1
+                            ref = reference(t2, cycles, step)
+                            if len(ref) > 1:
+                                counters["nontrivial"] += 1
+                            keys = set(ref) | set(got)
+                            worst = max((abs(ref.get(k, 0.0) - got.get(k, 0.0)) for k in keys), default=0.0)
+                            if err or worst > TOL:
+                                sig = f"C09/schedule/table-edited-between-steps/{fname}/{'exception' if err else 'distribution-differs'}"
+                                seen[sig] = seen.get(sig, 0) + 1
+                                if seen[sig] <= 2:
+                                    viol.append({"signature": sig, "what": f"table {table} cycles {cycles}: after one step, {fname} of move {NAMES[mi]} set to {v}; step {step}: {err or 'distribution differs from the reference for the edited table by %.3g' % worst}", "replay": {"check": PID, "func": "task_edits", "arg": {"items": [[table, cycles]]}}})
+        finally:
+            mc.close()
+    counters["violating_instances"] = sum(seen.values())
+    return {"counters": counters, "sets": {}, "violations": viol, "samples": []}
+
+
 def tables(n, alphabet):
     return [tuple(t) for t in itertools.product(alphabet, repeat=n)]
 
@@ -216,7 +288,7 @@ def refusal(viol):
     from quansino.mc.core import MonteCarlo
 
     n = 0
-    for cycles in (1, 2, 3, 4):
+    for cycles, ivs in itertools.product((1, 2, 3, 4), itertools.product((1, 2, 3), repeat=3)):
         for mins in itertools.product((0, 1, 2, 3), repeat=3):
             with warnings.catch_warnings():
                 warnings.simplefilter("ignore")
@@ -227,12 +299,12 @@ def refusal(viol):
                 before = list(mc.moves)
                 should_refuse = total + m > cycles
                 try:
-                    mc.add_move(PMove(), criteria=PCrit(), name=NAMES[i], minimum_count=m)
+                    mc.add_move(PMove(), criteria=PCrit(), name=NAMES[i], minimum_count=m, interval=ivs[i])
                     refused = False
                 except ValueError:
                     refused = True
                 if refused != should_refuse:
-                    viol.append({"signature": f"C09/add_move/{'over-commit-accepted' if should_refuse else 'valid-move-refused'}", "what": f"cycles={cycles}, minimum counts so far {mins[:i]}, adding {m}: refused={refused}", "replay": {"cycles": cycles, "mins": mins[: i + 1]}})
+                    viol.append({"signature": f"C09/add_move/{'over-commit-accepted' if should_refuse else 'valid-move-refused'}", "what": f"cycles={cycles}, minimum counts so far {mins[:i]} (intervals {ivs[:i]}), adding {m} with interval {ivs[i]}: refused={refused}", "replay": {"cycles": cycles, "mins": mins[: i + 1], "intervals": ivs[: i + 1]}})
                 if refused and list(mc.moves) != before:
                     viol.append({"signature": "C09/add_move/table-changed-by-refused-addition", "what": "a refused add_move modified the table", "replay": {}})
                 if not refused:
@@ -260,6 +332,10 @@ def run(tier, seed):
     args = [{"items": items[i : i + chunk], "steps": steps} for i in range(0, len(items), chunk)]
     for r in pmap(__name__, "task", args):
         acc.add(r)
+    two = [(t, c) for t in tables(2, FULL if tier == "thorough" else MID) for c in (2, 3)]
+    ch2 = max(1, len(two) // 64)
+    for r in pmap(__name__, "task_edits", [{"items": two[i : i + ch2]} for i in range(0, len(two), ch2)]):
+        acc.add(r)
     viol = list(acc.violations)
     nref = refusal(viol)
     rep.violations = viol
@@ -273,6 +349,7 @@ def run(tier, seed):
         "instances_with_more_than_one_sequence": acc.n("nontrivial"),
         "skipped_outside_precondition": acc.n("skipped_outside_precondition"),
         "add_move_refusal_cases": nref,
+        "in_place_table_edits_checked": acc.n("edits"),
         "violating_instances": acc.n("violating_instances"),
         "bound": f"tables of 1-2 moves over interval{{1,2,3}} x weight{{0,1,3}} x min{{0,1,2}}, tables of 3 moves over {'interval{1,2} x weight{0,1} x min{0,1}' if tier == 'quick' else 'interval{1,2,3} x weight{0,1,3} x min{0,1}'}; cycles 1-4; steps 0-6; every generator answer",
         "exhaustive": True,
@@ -283,5 +360,8 @@ def run(tier, seed):
 
 
 def replay(data):
+    if data.get("func") == "task_edits":
+        res = task_edits(data["arg"])
+        return {"signatures": sorted({v["signature"] for v in res["violations"]}), "counters": res["counters"]}
     res = task_replay(data["arg"])
     return {"signatures": sorted({v["signature"] for v in res["violations"]}), "counters": res["counters"]}
